@@ -1,7 +1,7 @@
 """C03 -- a nameplate leads all its claimants to one stable, unshared mailbox."""
 from ..events import (all_events, is_app_id, construct_of, handler_paths,
                       handler_for, frame_type, frame_fields, flat_events,
-                      is_client_value)
+                      is_client_value, handler_of)
 from ..report import render_path
 from ..terms import show, plain, is_const, strip_wrappers, mentions, walk
 from .. import e3 as e3mod
@@ -117,6 +117,24 @@ def run(ctx):
                 ctx.ob("R03.ret", "%s: claimed.mailbox is the returned id" % h, okf, e,
                        "" if okf else "claimed frame carries %s" % show(ff.get("mailbox"))[:60])
     ctx.require("R03.ret", nret, 2, "returning paths of claim_nameplate in the claim handler")
+    # every `claimed` answer, wherever it is sent, carries the value the claim
+    # operation returned on that very path (never a remembered one)
+    for en in model.runtime_entries():
+        for p in model.paths(en):
+            rets = [e for e, _ in all_events(p, ("ret",))
+                    if e["callee"] == "AppNamespace.claim_nameplate"]
+            for e, _ in all_events(p, ("send",)):
+                if frame_type(e) != "claimed":
+                    continue
+                ff = frame_fields(e) or {}
+                mv = plain(ff.get("mailbox", ("const", None)))
+                ok = bool(rets) and any(plain(r["value"]) == mv for r in rets)
+                ctx.ob("R03.ret", "claimed.mailbox comes from the claim made on this path "
+                       "(%s)" % e["func"].replace("WebSocketServer.send", handler_of(p) or en),
+                       ok, e, "" if ok else "a `claimed` answer carries %s, which is not "
+                       "the id returned by claiming the nameplate now (a remembered value "
+                       "can belong to a retired incarnation)" % show(mv)[:60],
+                       None if ok else render_path(p.events))
     # R03.immut
     nimm = 0
     for en in model.runtime_entries():
